@@ -28,8 +28,12 @@ def ilog():
 
 def classify(entries, data, note):
     nt = False
+    ptes = set()
     for off in range(0, len(data) - 7, 8):
         pte = int.from_bytes(data[off + 4:off + 8], 'big')
+        if (pte >> 28) == 0xE and (pte ^ 0x00040000) in ptes:
+            note.label('reported and plain form of one error in one log')
+        ptes.add(pte)
         ms = [e for e in entries if D.pattern_matches(e['pattern'], pte)]
         if len(ms) >= 2:
             nt = True
@@ -104,9 +108,12 @@ def shipped_case(draw):
     table = shipped_table(name)
     n = draw(st.integers(1, 12))
     out = b''
+    seen = []
     for _ in range(n):
-        kind = draw(st.integers(0, 5))
-        if kind <= 3:
+        kind = draw(st.integers(0, 6))
+        if kind == 6 and seen:
+            pte = draw(st.sampled_from(seen)) ^ (0x00040000 if draw(st.booleans()) else 0)
+        elif kind <= 3:
             e = table[draw(st.integers(0, len(table) - 1))]
             pte = D.fill_pattern(draw, e['pattern'])
             if kind == 1:
@@ -117,6 +124,7 @@ def shipped_case(draw):
             pte = draw(st.integers(0, 0xFFFFFFFF))
         out += int(draw(st.integers(0, 0xFFFF))).to_bytes(2, 'big') + \
             int(draw(st.integers(0, 0xFFFF))).to_bytes(2, 'big') + pte.to_bytes(4, 'big')
+        seen.append(pte)
     out += draw(st.binary(max_size=7))
     return {'file': name, 'data': out}
 
